@@ -464,7 +464,10 @@ Definition reduce (h : heap) (nj : loc) (rs : list loc) : option (heap * loc) :=
                     | None => match getattr hq d "_geometry" with Some v => v | None => VNone end
                     end in
         let '(h1, p) := alloc hq [("__class__", VStr "Posterior"); ("_FD_enabled", VNum 0); ("_FD_epsilon", VNone);
-                                 ("_constant", VNum 0); ("_geometry", geom); ("_name", VNone); ("_original_density", VNone);
+                                 ("_constant", VNum 0); ("_geometry", geom);
+                                 (* Posterior(lik, prior, name=prior.name): the name is written on the fresh Posterior only *)
+                                 ("_name", match name_of 50 hq d with Some s => VStr s | None => VNone end);
+                                 ("_original_density", VNone);
                                  ("is_symmetric", VNone); ("likelihood", VRef lk); ("prior", VRef d)] in
         Some (add_constants h1 p has_ed, p)
     | _, _ => None
